@@ -4,7 +4,8 @@ CFG = dict(
     reference=False,
     translate=['alias'],
     coq_targets=['proofs/AliasSitesProofs.vo', 'props/C19.vo'],
-    gen_lemmas=['no_unframed_sites (gen/AliasSites.v regenerated from /repo: no append-on-parameter, store-parameter or return-field site)'],
+    gen_lemmas=['no_unframed_sites (gen/AliasSites.v regenerated from /repo: no append-on-parameter, store-parameter or return-field site)',
+                'every_site_program_ok (every copy site and unframed site of /repo, emitted as a program of model/Heap.v, follows the ownership discipline and keeps/returns an owned slice)'],
     corr='Heap.run_prog (model/Heap.v) vs the Go runtime on random slice programs (make/sub-slice/append/copy/Concat/Clone/write)',
     rule='P cases: random slice programs, class = set of instruction kinds x length bucket, non-trivial when the program appends, copies or writes; G cases: the guard-region catalogue (every template x {primitive calls, accessors/serialization}, every subtle constructor, legacy adapters x prefix types), class = catalogue entry',
     assumptions=['Go slice semantics as modelled in model/Heap.v (validated on the random programs of this run)',
@@ -12,7 +13,7 @@ CFG = dict(
                  'the syntactic site scan (harness/cmd/translate/alias.go) is in the trusted base; sites it cannot see are covered only by the guard-region catalogue'],
 )
 MANIFEST = dict(
-    text='PARTIAL. Theorems in coq/props/C19.v over a slice/heap model with array identity and capacity (model/Heap.v): slices.Concat and bytes.Clone never modify an existing array and return a fresh one (for all heaps/slices); append with spare capacity writes into the caller\'s array (and the append-on-parameter idiom is refuted by a witness); the three idioms the library uses at its API boundary (message suffixing by Concat, constructor stores a clone, accessor returns a clone) satisfy the frame property. The tie to the source is a table of boundary-crossing sites regenerated from /repo by the translator on every run, with the obligation that no site appends to / stores / returns a byte slice without a copy, and a differential run of the heap model against the Go runtime on random slice programs. The search for a concrete failing input is a guard-region catalogue run against the real code: inputs inside canary-filled buffers with spare capacity for every primitive class/key type incl. legacy adapters, then inputs/outputs mutated and keys/handles/later results compared with pristine copies (reflection over all key and parameter accessors).',
+    text='PARTIAL. Theorems in coq/props/C19.v over a slice/heap model with array identity and capacity (model/Heap.v): slices.Concat and bytes.Clone never modify an existing array and return a fresh one (for all heaps/slices); append with spare capacity writes into the caller\'s array (and the append-on-parameter idiom is refuted by a witness); the three idioms the library uses at its API boundary (message suffixing by Concat, constructor stores a clone, accessor returns a clone) satisfy the frame property; AT PROGRAM LEVEL (C19_disciplined_program_frames_the_caller, induction over programs of the slice language): any function that writes only through slices obtained from its own allocations (make, Clone, Concat, append on an owned slice, sub-slices of those) leaves every view the caller has of its memory unchanged, up to capacity, and everything it owns lives in arrays allocated during the call, disjoint from all caller slices - and each forbidden instruction on a parameter is refuted by a witness. The tie to the source is a table of boundary-crossing sites regenerated from /repo by the translator on every run, with the obligation that no site appends to / stores / returns a byte slice without a copy; every site (120 at the pinned commit) is also emitted as a program of the slice language, the obligation being that each is disciplined and keeps/returns an owned slice, so that the frame theorem applies to every site (C19_every_site_of_the_source_frames_the_caller); and a differential run of the heap model against the Go runtime on random slice programs. The search for a concrete failing input is a guard-region catalogue run against the real code: inputs inside canary-filled buffers with spare capacity for every primitive class/key type incl. legacy adapters, then inputs/outputs mutated and keys/handles/later results compared with pristine copies (reflection over all key and parameter accessors).',
     note='Trusted: Coq kernel, extraction, the translator\'s syntactic site scan, the Go harness. Not modelled: aliasing inside the Go standard library and the protobuf runtime; the heap model covers byte slices only. The catalogue samples message sizes; it is a search, not a proof.',
     technique='Coq frame theorems over a slice/heap model + regenerated site table obligation + differential run of the model against the Go runtime; guard-region catalogue as failing-input search',
 )
